@@ -1166,6 +1166,8 @@ def replay(ctx, payload):
         f = check_idle(ctx, case["transport"], case["timeout"])
     elif test == "reconnect":
         f = check_reconnect(ctx, case["transport"])
+    elif test == "reset":
+        f = check_reset(ctx, case["transport"])
     elif test == "write":
         f = check_write(ctx, case["transport"], case.get("size", 1 << 20), case.get("bufsize", 8192))
     elif test == "session":
